@@ -824,6 +824,31 @@ def _segments(ctx, prog):
              } == {(even, p1), (odd, p2)} and \
             tm.is_const(b.get("step"), 2) and \
             b.get("plot_mode") is tm.param("plot_mode")
+    ev_blocks = None
+    if len(cl) == 1 and not ok:
+        # the interleaved array built by stacking + reshape: side by side
+        # (hstack / stack(axis=1)) and re-shaped to rows of 3 it alternates
+        # trajectory 1 / trajectory 2; one under the other (stack / vstack /
+        # concatenate along axis 0) it is two blocks, not pairs
+        v = Interp.unname(cl[0].data["bound"].get("xyz") or tm.NONE)
+        if is_call_to(v, ".reshape") and tm.method_recv(v) is not None:
+            st = Interp.unname(tm.method_recv(v))
+            ops_ = Interp.unname(st.args[1][0]) if st.op == "call" and \
+                st.args[1] else None
+            pair_ok = ops_ is not None and ops_.op in ("tuple", "list") and \
+                tuple(ops_.args) == (p1, p2)
+            ax = dict(st.args[2]).get("axis") if st.op == "call" else None
+            side = is_call_to(st, "numpy.hstack", "numpy.column_stack") or (
+                is_call_to(st, "numpy.stack", "numpy.concatenate") and
+                ax is not None and tm.is_const(ax, 1))
+            below = is_call_to(st, "numpy.vstack", "numpy.row_stack") or (
+                is_call_to(st, "numpy.stack", "numpy.concatenate") and
+                (ax is None or tm.is_const(ax, 0)))
+            if pair_ok and side and tm.is_const(cl[0].data["bound"].get(
+                    "step"), 2):
+                ok = True
+            elif pair_ok and below:
+                ev_blocks = fmt(st)[:70]
     via = [c for c in rh.of_kind("call") if bld is not None and
            c.data.get("target") is bld[0] and c.depth == 0]
     if not cl and len(via) == 1:
@@ -848,12 +873,16 @@ def _segments(ctx, prog):
       ctx.ob("C20.3", cl[0] if cl else h, ok,
            "correspondence edges: trajectory 1 at even rows, trajectory 2 "
            "at odd rows, one segment per pose pair (step=2)" if ok else
-           "correspondence edges: interleaving / step deviate",
+           "correspondence edges: interleaving / step deviate"
+           + (f": {ev_blocks} puts all positions of trajectory 1 before "
+              f"those of trajectory 2 — consecutive rows are not pose pairs"
+              if ev_blocks else ""),
            # evidence: the even/odd row stores are there but cross the
            # trajectories or use another step; any other construction of
            # the interleaved array (hstack + reshape ...) is not read
-           evidence=bool(cl) and cl[0].data["bound"].get("xyz") is not None
-           and cl[0].data["bound"]["xyz"].op == "upd",
+           evidence=bool(ev_blocks) or (
+               bool(cl) and cl[0].data["bound"].get("xyz") is not None
+               and cl[0].data["bound"]["xyz"].op == "upd"),
            key="C20.3:correspondence")
 
 
